@@ -3,6 +3,7 @@ package props
 import (
 	"crypto/sha256"
 	"fmt"
+	"net"
 	"strings"
 	"testing"
 
@@ -272,6 +273,37 @@ func TestC13(t *testing.T) {
 			hasPtr = err == nil && len(plain) != len(pkt)
 			if hasPtr {
 				cl = append(cl, "compressed_input")
+			}
+		}
+		// hand-appended additional records whose owner names are compression pointers to
+		// the owner field of the record before (a pointer to a pointer, RFC 1035 4.1.4:
+		// "a sequence of labels ending with a pointer"), the first pointing at the question
+		if len(qs) > 0 && len(pkt) < 0x3000 && rapid.IntRange(0, 2).Draw(t, "pointer_chain") == 0 {
+			pkt = append([]byte{}, pkt...)
+			cur, prev := want.Question[0].Name, 12
+			depth := rapid.IntRange(1, 4).Draw(t, "pointer_chain_depth")
+			for i := 0; i < depth; i++ {
+				off := len(pkt)
+				if i > 0 && len(cur) < 240 && rapid.Bool().Draw(t, fmt.Sprintf("pointer_chain_label%d", i)) {
+					pkt = append(pkt, 1, byte('a'+i))
+					if cur == "" {
+						cur = string(rune('a' + i))
+					} else {
+						cur = string(rune('a'+i)) + "." + cur
+					}
+				}
+				ip := net.IP{10, 9, byte(i), byte(depth)}
+				pkt = append(pkt, 0xc0|byte(prev>>8), byte(prev), 0, 1, 0, 1, 0, 0, 0, byte(30+i), 0, 4)
+				pkt = append(pkt, ip...)
+				want.Additional = append(want.Additional, dns.RR{Name: cur, Type: 1, Class: 1, TTL: uint32(30 + i), Data: ip})
+				prev = off
+			}
+			ar := int(pkt[10])<<8 | int(pkt[11]) + depth
+			pkt[10], pkt[11] = byte(ar>>8), byte(ar)
+			hasPtr = true
+			nrr += depth
+			if depth > 1 {
+				cl = append(cl, "pointer_to_pointer")
 			}
 		}
 		rp := map[string]any{"bytes": hx(pkt), "want": dnsfx.Canon(want), "compressed": hasPtr}
